@@ -427,7 +427,7 @@ def container_vspaces(ctx, world):
         clo, pre, prekw = ev.as_closure(so[0].args[1])
         if clo is not None and not pre and not prekw:
             A = T("sym", name="A", role="param")
-            body = unseq(expand(ev, ev.apply(clo, [A], {}, []), (), keep_attrs=VS_VOCAB + ("_mut_add",)))
+            body = unseq(expand(ev, ev.apply(clo, [A], {}, []), {"autograd.builtins.isinstance", "autograd.builtins.type"}, keep_attrs=VS_VOCAB + ("_mut_add",)))  # (the type-query replacements are vocabulary here: their own body is A14.typeq's)
             is_slice_test = lambda a: a.op == "call" and a.fn.op == "ref" and a.fn.ref.qual in ("builtins.isinstance", "autograd.builtins.isinstance") and len(a.args) == 2 and a.args[0] is idxs and a.args[1].op == "ref" and a.args[1].ref.qual == "builtins.slice"
             dec = lambda val: (lambda a: val if is_slice_test(a) else None)
             is_cur = lambda t: t.op == "sub" and t.obj is A and t.idx is idxs
